@@ -198,6 +198,34 @@ def furthest_rule(ctx, p, K):
     ctx.ob(rule, t.key, okt, where=t, node=t.node, construct=norm_text(app[0]) if app else "", message="sub slim index j must be appended to the list of the slim pixel it belongs to (slim_for_sub_slim[j])")
 
 
+_BORDER_SEQ = ("self.sub_border_grid", "self.sub_border_slim", "self.border_grid", "self.border_slim")
+
+
+def _emptiness(test):
+    """'empty' / 'nonempty' when the test says exactly that about one of the relocator's border sequences, else None."""
+    if isinstance(test, ast.UnaryOp) and isinstance(test.op, ast.Not):
+        e = _emptiness(test.operand)
+        return None if e is None else ("nonempty" if e == "empty" else "empty")
+
+    def count(e):
+        if isinstance(e, ast.Call) and norm_text(e.func) == "len" and len(e.args) == 1 and norm_text(e.args[0]) in _BORDER_SEQ:
+            return True
+        t = norm_text(e)
+        return any(t in (f"{b}.shape[0]", f"{b}.size") for b in _BORDER_SEQ)
+    if count(test):
+        return "nonempty"
+    if isinstance(test, ast.Compare) and len(test.ops) == 1:
+        l, op, r = test.left, test.ops[0], test.comparators[0]
+        if count(r) and isinstance(l, ast.Constant):
+            flip = {ast.Lt: ast.Gt, ast.Gt: ast.Lt, ast.LtE: ast.GtE, ast.GtE: ast.LtE}
+            l, r, op = r, l, flip.get(type(op), type(op))()
+        if count(l) and isinstance(r, ast.Constant) and type(r.value) is int:
+            k = r.value
+            table = {(ast.Eq, 0): "empty", (ast.NotEq, 0): "nonempty", (ast.Gt, 0): "nonempty", (ast.LtE, 0): "empty", (ast.Lt, 1): "empty", (ast.GtE, 1): "nonempty"}
+            return table.get((type(op), k))
+    return None
+
+
 def entry_rule(ctx, p):
     rule = "C18.entry"
     c = p.cls(f"{BR}:BorderRelocator")
@@ -213,6 +241,17 @@ def entry_rule(ctx, p):
         rets = wire.returns_of(m)
         wrap = [r for r in rets if isinstance(r.value, ast.Call) and norm_text(r.value.func) == "Grid2DIrregular" and cs and wire.kw(r.value).get("values") is cs[0]]
         ctx.ob(rule, f"{c.key}.{meth}:result", len(wrap) == 1, where=m, node=m.node, construct="", message="the relocated coordinates must be returned untouched as the irregular grid")
+        # every other exit hands the input back unchanged and is taken only for an empty border (the property quantifies over non-empty borders)
+        bad = []
+        for r in rets:
+            br = [(_emptiness(ast.parse(t_, mode="eval").body), t) for t_, t in wire.path_conds(m, r, inline=True)]
+            if r in wrap:
+                if any(e is None or (e == "empty") == t for e, t in br):
+                    bad.append(r)
+            elif not (r.value is not None and norm_text(r.value) == retempty and len(br) == 1 and br[0][0] is not None and (br[0][0] == "empty") == br[0][1]):
+                bad.append(r)
+        ctx.ob(rule, f"{c.key}.{meth}:exits", not bad, where=m, node=bad[0] if bad else m.node, construct=norm_text(bad[0])[:160] if bad else "",
+               message=f"the only exit that skips the relocation returns `{retempty}` itself and is taken exactly when the border is empty (len(self.sub_border_grid) == 0); the relocation itself must not depend on anything else")
     m = c.lookup("sub_border_slim")
     h = p.func(f"{BR}:sub_border_pixel_slim_indexes_from")
     cs = wire.calls_to(p, m, h.key)
@@ -250,6 +289,9 @@ CONTROLS = [
     Control("moved point not re-centred", _G, in_func("relocated_grid_via_jit_from", "move_factor * (grid[pixel_index, :] - border_origin[:])\n                    + border_origin[:]", "move_factor * (grid[pixel_index, :] - border_origin[:])"), "C18.relocate"),
     Control("nearest border point by y only", _G, in_func("relocated_grid_via_jit_from", "np.square(grid[pixel_index, 0] - border_grid[:, 0])\n                + np.square(grid[pixel_index, 1] - border_grid[:, 1])", "np.square(grid[pixel_index, 0] - border_grid[:, 0])"), "C18.relocate"),
     Control("output starts as zeros only", _G, in_func("relocated_grid_via_jit_from", "    grid_relocated[:, :] = grid[:, :]\n", ""), "C18.relocate"),
+    Control("empty-border exit negated (a non-empty border relocates nothing)", _B, in_func("BorderRelocator.relocated_grid_from", "if len(self.sub_border_grid) == 0:", "if not len(self.sub_border_grid) == 0:"), "C18.entry"),
+    Control("empty-border exit taken for a one-point border", _B, in_func("BorderRelocator.relocated_mesh_grid_from", "if len(self.sub_border_grid) == 0:", "if len(self.sub_border_grid) <= 1:"), "C18.entry"),
+    Control("twin: empty-border exit by truthiness", _B, in_func("BorderRelocator.relocated_grid_from", "if len(self.sub_border_grid) == 0:", "if not len(self.sub_border_slim):"), None, twin=True),
     Control("mesh relocation uses the image-plane border (seed C18/1)", _B, in_func("BorderRelocator.relocated_mesh_grid_from", "border_grid=np.array(grid[self.sub_border_slim]),", "border_grid=np.array(self.sub_border_grid),"), "C18.entry"),
     Control("centre is the centroid (seed C18/2)", _B, in_func("sub_border_pixel_slim_indexes_from", "mask_centre = grid_2d_util.grid_2d_centre_from(grid_2d_slim=sub_grid_2d_slim)", "mask_centre = (np.mean(sub_grid_2d_slim[:, 0]), np.mean(sub_grid_2d_slim[:, 1]))"), "C18.sub-border"),
     Control("sub-border search in scaled units", _B, in_func("sub_border_pixel_slim_indexes_from", "pixel_scales=(1.0, 1.0),", "pixel_scales=(1.0, 2.0),"), "C18.sub-border"),
